@@ -131,11 +131,13 @@ func unhexOr(s string) []byte {
 	return b
 }
 
-func execC16(p *drv.Plan) *Out {
-	out := &Out{Evals: 1, Probes: map[string]int{}, Stats: map[string]int{}}
-	out.Sample = p.Compact()
+// legacyWorld builds the database the plan's "l." steps describe with the real
+// legacy library (legacygen), confirms the reference models against what that
+// library reports, and returns a world (not yet opened) on a simulated disk
+// holding the raw legacy image, with the models at the legacy latest version.
+// A nil world means the plan has no committed legacy version.
+func legacyWorld(p *drv.Plan, out *Out) (w *drv.World, rest []drv.Step, legacyLatest int64, lo lgOut, img *sim.SimDB) {
 	var legacy []lgStep
-	var rest []drv.Step
 	M, T := ref.NewVMap(), ref.NewTree()
 	universe := map[string]bool{}
 	for _, s := range p.Steps {
@@ -169,7 +171,7 @@ func execC16(p *drv.Plan) *Out {
 		}
 	}
 	if M.Latest == 0 {
-		return out
+		return nil, rest, 0, lo, nil
 	}
 	M.Discard()
 	T.Discard()
@@ -185,7 +187,6 @@ func execC16(p *drv.Plan) *Out {
 	if err := cmd.Run(); err != nil {
 		panic(fmt.Sprintf("legacygen failed: %v: %s", err, se.String()))
 	}
-	var lo lgOut
 	if err := json.Unmarshal(so.Bytes(), &lo); err != nil || lo.Error != "" {
 		panic(fmt.Sprintf("legacygen: %v %s", err, lo.Error))
 	}
@@ -211,9 +212,9 @@ func execC16(p *drv.Plan) *Out {
 			}
 		}
 	}
-	legacyLatest := M.Latest
+	legacyLatest = M.Latest
 	// the current library opens the raw dump
-	img := sim.NewSimDB()
+	img = sim.NewSimDB()
 	orphans := 0
 	for _, kv := range lo.Dump {
 		k := unhexOr(kv.K)
@@ -225,11 +226,21 @@ func execC16(p *drv.Plan) *Out {
 	if orphans > 0 {
 		out.Probes["legacy.orphan-records"]++
 	}
-	w := drv.NewWorld(p.Config)
+	w = drv.NewWorld(p.Config)
 	w.UseSim(img)
 	w.M, w.T = M, T
 	for k := range universe {
 		w.Universe[k] = true
+	}
+	return w, rest, legacyLatest, lo, img
+}
+
+func execC16(p *drv.Plan) *Out {
+	out := &Out{Evals: 1, Probes: map[string]int{}, Stats: map[string]int{}}
+	out.Sample = p.Compact()
+	w, rest, legacyLatest, lo, img := legacyWorld(p, out)
+	if w == nil {
+		return out
 	}
 	audits := 0
 	audit := func(w *drv.World, where string) *drv.Violation {
@@ -287,6 +298,8 @@ func execC16(p *drv.Plan) *Out {
 	for _, s := range rest {
 		steps = append(steps, s)
 	}
+	resaved := map[int64]map[string]bool{}
+	collided := false
 	runSteps := func() *drv.Result {
 		res := &drv.Result{W: w}
 		if err := w.Open(); err != nil {
@@ -299,6 +312,22 @@ func execC16(p *drv.Plan) *Out {
 		}
 		for _, s := range steps {
 			var v *drv.Violation
+			if s.Op == drv.OpSave {
+				// An unchanged commit on a legacy root re-saves that node in the
+				// new layout under (version it was created in, nonce 0). Two
+				// different legacy nodes created in the same version share that
+				// key: the second re-save overwrites the first (listed finding).
+				if r := w.T.Work; r != nil && r.Ver != 0 && r.Ver <= legacyLatest {
+					if resaved[r.Ver] == nil {
+						resaved[r.Ver] = map[string]bool{}
+					}
+					resaved[r.Ver][hex.EncodeToString(r.Hash)] = true
+					if len(resaved[r.Ver]) >= 2 {
+						collided = true
+						out.Probes["legacy.root-key-collision"]++
+					}
+				}
+			}
 			if s.Op == drv.OpPrune {
 				v = w.Guard("C16", "C16.step", "prune", func() *drv.Violation {
 					n := s.N
@@ -340,6 +369,9 @@ func execC16(p *drv.Plan) *Out {
 			if v != nil {
 				if v.Prop != "C16" {
 					v = relabel(v, "C16", "legacy-db")
+				}
+				if collided {
+					v.Class = "ctx[legacy-root-key-collision]" + v.Class
 				}
 				v.StepID = s.ID
 				res.Vio = v
